@@ -163,6 +163,9 @@ void AutomationMgr::setSlotSub(int slot_id, int par, float value)
         else if(v < mn)
             v = mn;
 
+        if(au.map.control_scale == 1)
+            v = expf(v);
+
         rtosc_message(msg, 256, path, "i", (int)roundf(v));
     } else if(type == 'f') {
         float v = value*(b-a) + a;
